@@ -342,6 +342,10 @@ def qa_order(ctx: Ctx):
             order = s_[2]
             break  # outermost .loc[...] of the returned value
     need(order, "get_variable_info does not return table.loc[<order>]")
+    if callee_name(order) in ("builtins.sorted", "builtins.reversed") or (callee_name(order) == "builtins.list" and order[2] and callee_name(order[2][0]) in ("builtins.sorted", "builtins.reversed", "builtins.set")):
+        ctx.ob("QA2:order:applied", False, prog.where(fr.ret),
+               f"the table is re-indexed by {show(order)[:50]}: the canonical block order is destroyed", lhs=fr.ret)
+        return
     qs = []
 
     def flatten(t):
